@@ -231,6 +231,44 @@ pub fn canonical_templates(c: &Census) -> Vec<Tmpl> {
     best.into_values().map(|(t, _)| t).collect()
 }
 
+/// For every Code with a memory form: one template per distinct addressing category
+/// (scale of the index or none, displacement size, base kind, REX-extended index/base), so
+/// that the value sweeps of C01/C02/C06 do not only ever see `[rbx]`.
+pub fn diverse_templates(c: &Census) -> Vec<Tmpl> {
+    let mut best: BTreeMap<(String, String), Tmpl> = BTreeMap::new();
+    for t in c.by_sig.values() {
+        if t.form != "mem" || !t.sig.contains("|P0|") {
+            continue;
+        }
+        let d = match decode_at(&t.bytes, IP) {
+            Some(d) => d,
+            None => continue,
+        };
+        let i = &d.instr;
+        let base = i.memory_base();
+        let index = i.memory_index();
+        let cat = format!(
+            "s{}d{}b{}x{}",
+            if index == Register::None { 0 } else { i.memory_index_scale() },
+            i.memory_displ_size(),
+            match base {
+                Register::None => "-",
+                Register::RIP => "rip",
+                _ => "r",
+            },
+            (base != Register::None && base.is_gpr() && base.number() >= 8) as u8 + 2 * (index != Register::None && index.number() >= 8) as u8
+        );
+        let k = (format!("{:?}", t.code), cat);
+        match best.get(&k) {
+            Some(old) if (old.bytes.len(), &old.bytes) <= (t.bytes.len(), &t.bytes) => {}
+            _ => {
+                best.insert(k, t.clone());
+            }
+        }
+    }
+    best.into_values().collect()
+}
+
 #[derive(Clone, Copy, PartialEq, Eq)]
 pub enum Scope {
     /// data instructions only (C01): no control transfer, no stack instruction
@@ -422,7 +460,29 @@ pub fn is_shift(i: &iced_x86::Instruction) -> bool {
 pub struct Plan<'a> {
     pub census: &'a Census,
     pub canon: &'a [Tmpl],
+    pub diverse: &'a [Tmpl],
     pub tier: Tier,
+}
+
+/// S1d: every Code's memory form at every addressing category (not only `[rbx]`), few values.
+pub fn s1d_shape_diversity(p: &Plan, scope: Scope, sink: &mut Sink) {
+    sink.tag = "S1d".into();
+    let flags = [0u64, ALL_FLAGS];
+    for t in p.diverse {
+        let d = decode_at(&t.bytes, IP).unwrap();
+        if !in_scope(&d.instr, scope) {
+            continue;
+        }
+        let o = ValueOpts {
+            nvals: if p.tier.is_thorough() { 4 } else { 3 },
+            flags: &flags,
+            imms: Some(2),
+            idx_val: 0x18,
+            max_arity_full: 1,
+            ..Default::default()
+        };
+        value_cases(t, &o, sink);
+    }
 }
 
 pub fn s1_values_flags(p: &Plan, scope: Scope, sink: &mut Sink) {
